@@ -45,3 +45,20 @@ Theorem renormalize_limits : forall L, amin L < adef L -> adef L < amax L -> 0 <
   renormalizeValue L (adef L) == 0 /\ renormalizeValue L (amax L) == 1 /\ renormalizeValue L (amin L) == -1.
 Proof. exact Proofs.renormalize_limits. Qed.
 Print Assumptions renormalize_limits.
+
+(* ---- ONE VariationModel used over a history of getSubModel / reorderMasters calls (ModelCache.v): every answer is the answer of a
+   model that keeps no cache at all, as long as no reorderMasters call failed half-way (a mapping that drops a master raises
+   ValueError after origLocations was already replaced: failed_reorder_leaves_stale_cache in ProofsCache.v) *)
+From FV Require C09.ModelCache C09.ProofsCache.
+Theorem submodel_cache_transparent : forall d srt org s ops, ModelCache.init d srt org = Ok s ->
+  Forall (fun x => x <> Err ValueError) (snd (ModelCache.run s ops)) ->
+  snd (ModelCache.run s ops) = snd (ModelCache.run_spec s ops).
+Proof. exact ProofsCache.fresh_model_transparent. Qed.
+Print Assumptions submodel_cache_transparent.
+
+(* mapping / reverseMapping translate between the caller's master order and the model's own, after any such history *)
+Theorem master_index_maps_correct : forall d srt org s ops, ModelCache.init d srt org = Ok s ->
+  Forall (fun x => x <> Err ValueError) (snd (ModelCache.run s ops)) ->
+  ProofsCache.MapsOk (fst (ModelCache.run s ops)).
+Proof. exact ProofsCache.maps_after_history. Qed.
+Print Assumptions master_index_maps_correct.
